@@ -44,7 +44,7 @@ func (c20) Cases(tier string, race bool) int {
 	return 16000
 }
 
-var c20gen = xt.GenCfg{Names: []string{"a", "b", "c", "k", "x-y"}, Prefixes: []string{"", "", "", "ns"}, Texts: []string{"", "t", "1", "true", "<&>", " pad ", "é", "x y", "1.5"}, MaxKids: 4, MaxAttrs: 2, WideProb: 60}
+var c20gen = xt.GenCfg{Names: []string{"a", "b", "c", "k", "x-y"}, Prefixes: []string{"", "", "", "ns"}, Texts: []string{"", "t", "1", "true", "<&>", " pad ", "é", "x y", "1.5", "x > y", "a >\n b"}, MaxKids: 4, MaxAttrs: 2, WideProb: 60}
 
 func keysOnBranchTwice(v interface{}, seen map[string]bool, out map[string]bool) {
 	switch t := v.(type) {
